@@ -136,6 +136,10 @@ def parse_harnesses(unit):
         m = re.match(r"^(\w+)!\(\s*(\w+)\s*[,)]", st)
         if m and m.group(1) in macro_ann:
             kv, d = macro_ann[m.group(1)]
+            kv = dict(kv)
+            mt = re.search(r"//@tier=(\w+)", st)   # per-invocation tier override
+            if mt:
+                kv["tier"] = mt.group(1)
             out.append(mk(kv, m.group(2), d))
             continue
         m = FN.match(line)
@@ -163,11 +167,30 @@ UNDECIDED_PAT = re.compile(r"unwinding assertion|not currently supported|unsuppo
 
 
 def run_kani(ov, harnesses, tag, jobs=None, harness_timeout=900, total_timeout=None, solver=None,
-             mem_gb=24, extra=()):
-    """Run `cargo kani` once for all harnesses (exact names), parse the JSON export.
-    Returns dict name -> result."""
+             mem_gb=24, extra=(), isolate=False, rustflags=None):
+    """Run `cargo kani` for the harnesses (exact names) and parse the JSON export.
+    isolate=False: one invocation, Kani's own `-j` pool.
+    isolate=True : one invocation per harness (own process tree, own JSON), `jobs` at a time, with an
+                   RSS watchdog instead of RLIMIT_AS — a CBMC crash or kill then costs only that harness.
+    Returns (dict full-name -> result, command string)."""
     if not harnesses:
         return {}, ""
+    if isolate and len(harnesses) > 1:
+        import concurrent.futures
+        jobs = jobs or 2
+        # build once (first harness alone), then the rest in parallel reuse the compiled crate
+        results = {}
+        cmds = []
+        first, rest = harnesses[0], harnesses[1:]
+        r, c = run_kani(ov, [first], tag, jobs=1, harness_timeout=harness_timeout, solver=solver, mem_gb=mem_gb, extra=extra, isolate=True, rustflags=rustflags)
+        results.update(r)
+        cmds.append(c)
+        with concurrent.futures.ThreadPoolExecutor(max_workers=jobs) as ex:
+            futs = [ex.submit(run_kani, ov, [h], tag, 1, harness_timeout, None, solver, mem_gb, extra, True, rustflags) for h in rest]
+            for fu in futs:
+                r, c = fu.result()
+                results.update(r)
+        return results, cmds[0].replace(first["full"], "<each harness in its own invocation>")
     jobs = jobs or max(1, min(len(harnesses), NCPU - 2))
     outdir = os.path.join(SCRATCH, tag)
     jpath = os.path.join(outdir, "kani-%s.json" % hashlib.md5(",".join(h["full"] for h in harnesses).encode()).hexdigest()[:8])
@@ -183,22 +206,49 @@ def run_kani(ov, harnesses, tag, jobs=None, harness_timeout=900, total_timeout=N
     for h in harnesses:
         cmd += ["--harness", h["full"]]
     env = dict(os.environ, CARGO_NET_OFFLINE="true", CARGO_TERM_COLOR="never")
+    if rustflags:
+        env["RUSTFLAGS"] = (env.get("RUSTFLAGS", "") + " " + rustflags).strip()
     total_timeout = total_timeout or (harness_timeout * (1 + (len(harnesses) - 1) // jobs) + 900)
     t0 = time.time()
+    killed_for_mem = False
     with open(lpath, "w") as lf:
-        p = subprocess.Popen(cmd, cwd=ov, stdout=lf, stderr=subprocess.STDOUT, env=env, preexec_fn=_limits(mem_gb))
-        try:
-            p.wait(timeout=total_timeout)
-        except subprocess.TimeoutExpired:
+        if isolate:
+            p = subprocess.Popen(cmd, cwd=ov, stdout=lf, stderr=subprocess.STDOUT, env=env, preexec_fn=os.setsid)
+            # RSS watchdog over the process group
+            while True:
+                try:
+                    p.wait(timeout=5)
+                    break
+                except subprocess.TimeoutExpired:
+                    pass
+                if time.time() - t0 > total_timeout:
+                    break
+                rss = _group_rss_gb(p.pid)
+                if rss > mem_gb:
+                    killed_for_mem = True
+                    break
+            if p.poll() is None:
+                try:
+                    os.killpg(p.pid, 9)
+                except Exception:
+                    p.kill()
+                p.wait()
+        else:
+            p = subprocess.Popen(cmd, cwd=ov, stdout=lf, stderr=subprocess.STDOUT, env=env, preexec_fn=_limits(mem_gb))
             try:
-                os.killpg(p.pid, 9)
-            except Exception:
-                p.kill()
-            p.wait()
+                p.wait(timeout=total_timeout)
+            except subprocess.TimeoutExpired:
+                try:
+                    os.killpg(p.pid, 9)
+                except Exception:
+                    p.kill()
+                p.wait()
     wall = time.time() - t0
     logtxt = open(lpath, errors="replace").read()
+    if killed_for_mem:
+        logtxt += "\n[verif] memory guard: process group exceeded %d GB RSS and was killed\n" % mem_gb
     results = {}
-    if re.search(r"^error(\[E\d+\])?:", logtxt, re.M) and not os.path.exists(jpath):
+    if re.search(r"^error(\[E\d+\])?:", logtxt, re.M) and not os.path.exists(jpath) and "Checking harness" not in logtxt:
         # compile error: in the repo's own code or in a harness module — not this tool's verdict
         errs = re.findall(r"^error.*(?:\n\s+-->.*)?", logtxt, re.M)[:6]
         raise Undecided("cargo kani did not build the overlay: " + " | ".join(e.replace("\n", " ") for e in errs))
@@ -226,14 +276,33 @@ def run_kani(ov, harnesses, tag, jobs=None, harness_timeout=900, total_timeout=N
                 "props": props.get(hid, {}),
                 "solver_s": (stats.get(hid, {}).get("cbmc_stats", {}) or {}).get("runtime_decision_procedure_s"),
                 "solver": (stats.get(hid, {}).get("configuration", {}) or {}).get("solver"),
-                "log": per_log.get(hid, ""),
+                "log": per_log.get(hid, "") or (logtxt[-3000:] if len(harnesses) == 1 else ""),
             }
     for h in harnesses:
         if h["full"] not in results:
             lg = per_log.get(h["full"], "")
             results[h["full"]] = {"status": "NoResult", "duration_s": None, "n_checks": 0, "failed_checks": [],
-                                  "undetermined": 0, "props": {}, "solver_s": None, "solver": None, "log": lg or logtxt[-3000:]}
+                                  "undetermined": 0, "props": {}, "solver_s": None, "solver": None,
+                                  "log": (lg or logtxt[-3000:]) + ("\nmemory guard" if killed_for_mem else "")}
     return results, " ".join(cmd)
+
+
+def _group_rss_gb(pgid):
+    """sum of RSS (GB) over all processes in the process group"""
+    tot = 0
+    for d in os.listdir("/proc"):
+        if not d.isdigit():
+            continue
+        try:
+            with open("/proc/%s/stat" % d) as f:
+                st = f.read()
+            fields = st[st.rindex(")") + 2:].split()
+            if int(fields[2]) != pgid:   # pgrp
+                continue
+            tot += int(fields[21]) * 4096  # rss pages
+        except Exception:
+            continue
+    return tot / float(1 << 30)
 
 
 def split_log(logtxt):
@@ -294,13 +363,15 @@ def classify(h, r):
 # ----------------------------------------------------------------------------------------------
 # replay: concrete playback of a failing harness on the real (natively compiled) code
 # ----------------------------------------------------------------------------------------------
-def replay_kani(ov, h, prop, tag, r, timeout=900):
+def replay_kani(ov, h, prop, tag, r, timeout=900, rustflags=None):
     """Ask Kani for a concrete counterexample (`--concrete-playback=print`), save it, and execute
     it with `cargo kani playback` — which compiles the *real* crate natively (rustc, no CBMC) with
     cfg(kani) and runs the harness body on the concrete input.  Returns (path, replayed:bool)."""
     os.makedirs(REPLAYS, exist_ok=True)
     path = os.path.join(REPLAYS, "%s-%s.rs" % (prop, h["name"]))
     env = dict(os.environ, CARGO_NET_OFFLINE="true", CARGO_TERM_COLOR="never")
+    if rustflags:
+        env["RUSTFLAGS"] = (env.get("RUSTFLAGS", "") + " " + rustflags).strip()
     cmd = ["cargo", "kani", "--lib", "-Z", "function-contracts", "-Z", "stubbing", "-Z", "unstable-options",
            "-Z", "concrete-playback", "--concrete-playback=print", "--target-dir", KANI_TARGET, "--exact",
            "--harness", h["full"], "--harness-timeout", str(timeout)]
